@@ -1450,6 +1450,11 @@ def convert_mul_max_to_abs_or_lrelu(op: Operation, arch, nng) -> Operation:
         ifm, ofm = op.get_ifm_ofm()
         if ifm is None or ofm is None:
             return op
+        if ifm == mul_ofm:
+            # Max(Mul(x, c), x): the value being activated is the other operand of the Max, not the Mul's output
+            ifm = op.ifm2
+            if ifm is None:
+                return op
 
         if ifm.dtype not in (DataType.uint8, DataType.int8) or ifm.dtype != ofm.dtype:
             return op
